@@ -168,10 +168,6 @@ func (p *Proxy) call(ctx context.Context, m *GoMethod, args ...Object) Object {
 	}
 	inputs[0] = receiver
 
-	minArgs := numIn
-	if isVariadic {
-		minArgs--
-	}
 	for i := 1; i < numIn; i++ {
 		inType := m.inputTypes[i]
 		inConv, err := inType.GetConverter()
@@ -182,32 +178,39 @@ func (p *Proxy) call(ctx context.Context, m *GoMethod, args ...Object) Object {
 			inputs = append(inputs, reflect.ValueOf(ctx))
 			continue
 		}
-		if argIndex >= len(args) {
+		paramType := m.method.Type.In(i)
+		if isVariadic && i == numIn-1 {
+			// The remaining arguments are the elements of the variadic
+			// parameter, converted one by one
+			elemType := paramType.Elem()
+			elemConv, err := NewTypeConverter(elemType)
+			if err != nil {
+				return NewError(err)
+			}
+			for ; argIndex < len(args); argIndex++ {
+				input, err := proxyArgument(elemConv, elemType, args[argIndex])
+				if err != nil {
+					return TypeErrorf("type error: failed to convert argument %d in %s() call: %s", argIndex+1, methodName, err)
+				}
+				inputs = append(inputs, input)
+			}
 			break
 		}
-		// Handle nil values before attempting conversion
-		if args[argIndex] == Nil {
-			paramType := m.method.Type.In(i)
-			// For interface types, we need to create a nil interface value
-			if paramType.Kind() == reflect.Interface {
-				// Create a nil interface value with the correct type
-				inputs = append(inputs, reflect.New(paramType).Elem())
-			} else {
-				inputs = append(inputs, reflect.Zero(paramType))
-			}
-			argIndex++
-			continue
+		if argIndex >= len(args) {
+			return ArgsErrorf("args error: %s() requires %s, but %d were given",
+				methodFullName, m.argsDescription(), len(args))
 		}
-		input, err := inConv.To(args[argIndex])
+		input, err := proxyArgument(inConv, paramType, args[argIndex])
 		if err != nil {
-			return TypeErrorf("type error: failed to convert argument %d in %s() call: %s", i, methodName, err)
+			return TypeErrorf("type error: failed to convert argument %d in %s() call: %s", argIndex+1, methodName, err)
 		}
-		inputs = append(inputs, assignableValue(reflect.ValueOf(input), m.method.Type.In(i)))
+		inputs = append(inputs, input)
 		argIndex++
 	}
-	if len(inputs) < minArgs {
-		return ArgsErrorf("args error: %s() requires %d arguments, but %d were given",
-			methodFullName, minArgs, len(inputs))
+	// Every argument the script passed must have gone somewhere
+	if argIndex < len(args) {
+		return ArgsErrorf("args error: %s() requires %s, but %d were given",
+			methodFullName, m.argsDescription(), len(args))
 	}
 	outputs := m.method.Func.Call(inputs)
 	if len(outputs) == 0 {
@@ -255,6 +258,24 @@ func (p *Proxy) call(ctx context.Context, m *GoMethod, args ...Object) Object {
 		results = append(results, result)
 	}
 	return NewList(results)
+}
+
+// proxyArgument converts one script argument to a value for a Go parameter of
+// the given type.
+func proxyArgument(conv TypeConverter, paramType reflect.Type, arg Object) (reflect.Value, error) {
+	if arg == Nil {
+		// Only these kinds of parameter have a nil to receive
+		switch paramType.Kind() {
+		case reflect.Interface, reflect.Ptr, reflect.Map, reflect.Slice, reflect.Func, reflect.Chan:
+			return reflect.Zero(paramType), nil
+		}
+		return reflect.Value{}, errz.TypeErrorf("type error: nil is not a %s", paramType)
+	}
+	input, err := conv.To(arg)
+	if err != nil {
+		return reflect.Value{}, err
+	}
+	return assignableValue(reflect.ValueOf(input), paramType), nil
 }
 
 func (p *Proxy) MarshalJSON() ([]byte, error) {
